@@ -1013,11 +1013,33 @@ class ConsumeRule:
         self.raise_node = None
 
 
+def _transition_template(prj: Project):
+    """how the repo's subset construction represents a transition: ('tuple', None), ('class', its class) or (None, None) when that
+    cannot be established (the automaton of the one-atom expression is built by evaluating the repo's construction)"""
+    from .absint import MiniInterp, PyRaise, Sym, Unknown
+    try:
+        it = MiniInterp(prj, max_steps=100000)
+        e2n = prj.func("codelimit.common.gsm.Expression:expression_to_nfa")
+        n2d = prj.func("codelimit.common.gsm.Expression:nfa_to_dfa")
+        dfa = it.call(n2d, [it.call(e2n, [["x"]], {})], {})
+        start = it.getattr(dfa, "start", e2n, None)
+        tr = it.getattr(start, "transition", e2n, None)
+        if isinstance(tr, list) and tr:
+            t0 = tr[0]
+            if type(t0) is tuple and len(t0) == 2:
+                return ("tuple", None)
+            if isinstance(t0, Sym) and t0.cls is not None and getattr(t0, "tuple_order", None) and len(t0.tuple_order) == 2:
+                return ("class", t0.cls)
+    except (Unknown, PyRaise, AnalysisError, KeyError):
+        pass
+    return (None, None)
+
+
 def consume_rule(prj: Project) -> ConsumeRule:
     """The selection rule of Pattern.consume, obtained by evaluating its source (helpers included, whatever their shape)
     on every scenario of a state with two outgoing transitions: both list orders x which predicates are open x which
     accept the item.  The predicates are symbolic; accept()/is_open() answers come from the enumerated scenario."""
-    from .absint import MiniInterp, PyRaise, Sym, Unknown
+    from .absint import BoundFunc, MiniInterp, PyRaise, Sym, Unknown
     qual = "codelimit.common.gsm.Pattern:Pattern.consume"
     fi = prj.func(qual)
     cls = fi.cls
@@ -1030,25 +1052,75 @@ def consume_rule(prj: Project) -> ConsumeRule:
             r.loop = n
     outcomes = {}
     shared_calls = []
+    template = [None]
+
+    def group_class():
+        """a concrete predicate class of the repo that overrides is_open (a group predicate), with two-string construction"""
+        base = prj.classes.get("codelimit.common.gsm.predicate.Predicate:Predicate")
+        if base is None:
+            return None
+        for ci in sorted(base.all_subclasses(), key=lambda c: c.qual):
+            if "is_open" in ci.methods and "accept" in ci.methods and ci.find_method("__init__") is not None \
+                    and len(ci.find_method("__init__").params()) == 3:
+                return ci
+        return None
+    classed = [False]
 
     def scenario(order, opens, accepts):
         P = {i: Sym(f"P{i}") for i in (1, 2)}
+        if classed[0]:
+            # the predicates are instances of a group-predicate class of the repo (questions about their class are answered by
+            # the class); accept() / is_open() still answer as the scenario says
+            gc = group_class()
+            if gc is None:
+                raise Unknown("no group-predicate class to instantiate")
+            mk0 = MiniInterp(prj)
+            P = {i: mk0.construct(gc, [("(", "[")[i - 1], (")", "]")[i - 1]], {}, None, fi) for i in (1, 2)}
+            for i in (1, 2):
+                P[i].name = f"P{i}"
         T = {i: Sym(f"T{i}") for i in (1, 2)}
         copies = {}
         # states and automaton are instances of the repo's own classes (their methods are interpreted); the pattern is built by
         # its own constructor when that is possible, so that whatever helper objects it creates exist
         state_cls = prj.classes.get("codelimit.common.gsm.automata.State:State")
         dfa_cls = prj.classes.get("codelimit.common.gsm.automata.DFA:DFA")
-        for i in (1, 2):
-            T[i] = Sym(f"T{i}", _cls=state_cls, transition=[], epsilon_transitions=[], id=100 + i)
-        state = Sym("S", _cls=state_cls, transition=[(P[i], T[i]) for i in order], epsilon_transitions=[], id=100)
-        dfa = Sym("dfa", _cls=dfa_cls, start=state, accepting=[T[1], T[2]], accepting_states=[T[1], T[2]])
+        state = None
+        if template[0] is None:
+            template[0] = _transition_template(prj)
+        kind, tcls = template[0]
+        if kind is not None:
+            # the automaton is made of the repo's own objects: states by State(), transitions in the representation its subset
+            # construction produces (pairs, or instances of its transition class), the automaton by DFA(start, accepting)
+            mk = MiniInterp(prj)
+            try:
+                st = {i: mk.construct(state_cls, [], {}, None, fi) for i in (0, 1, 2)}
+                for i in (1, 2):
+                    T[i] = st[i]
+                    T[i].name = f"T{i}"
+                lst = mk.getattr(st[0], "transition", fi, None)
+                if not isinstance(lst, list):
+                    raise Unknown("State.transition is not a list")
+                for i in order:
+                    lst.append((P[i], T[i]) if kind == "tuple" else mk.construct(tcls, [P[i], T[i]], {}, None, fi))
+                state = st[0]
+                state.name = "S"
+                dfa = mk.construct(dfa_cls, [state, [T[1], T[2]]], {}, None, fi)
+            except (Unknown, PyRaise):
+                state = None
+        if state is None:
+            for i in (1, 2):
+                T[i] = Sym(f"T{i}", _cls=state_cls, transition=[], epsilon_transitions=[], id=100 + i)
+            state = Sym("S", _cls=state_cls, transition=[(P[i], T[i]) for i in order], epsilon_transitions=[], id=100)
+            dfa = Sym("dfa", _cls=dfa_cls, start=state, accepting=[T[1], T[2]], accepting_states=[T[1], T[2]])
         item = Sym("item")
         me = None
 
         def hook(it, kind, f, args, kwargs, node, cur):
             if kind != "call":
                 return NotImplemented
+            if isinstance(f, BoundFunc) and isinstance(f.self_obj, Sym) and f.fi.name in ("accept", "is_open") and \
+                    any(P[i] is f.self_obj.fields.get("origin", f.self_obj) for i in (1, 2)):
+                f = ("method", f.self_obj, f.fi.name)
             if isinstance(f, tuple) and f and f[0] == "method":
                 _, obj, name = f
                 if me is not None and obj is me:
@@ -1071,7 +1143,9 @@ def consume_rule(prj: Project) -> ConsumeRule:
             if isinstance(f, tuple) and f and f[0] == "external" and f[1].replace(":", ".").split(".")[-1] in ("deepcopy", "copy"):
                 x = args[0]
                 if isinstance(x, Sym):
-                    return copies.setdefault((x.uid, len(copies)), Sym("copy:" + x.name, origin=x.fields.get("origin", x)))
+                    c = Sym("copy:" + x.name, _cls=x.cls, **{k: v for k, v in x.fields.items() if k != "origin"})
+                    c.fields["origin"] = x.fields.get("origin", x)
+                    return copies.setdefault((x.uid, len(copies)), c)
                 raise Unknown("copy of a non-predicate")
             return NotImplemented
         it = MiniInterp(prj, hook)
@@ -1100,13 +1174,21 @@ def consume_rule(prj: Project) -> ConsumeRule:
             return ("stays",)
         return ("other", repr(v))
 
-    try:
+    def all_scenarios():
+        outcomes.clear()
+        del shared_calls[:]
         for order in ((1, 2), (2, 1)):
             for o1 in (False, True):
                 for o2 in (False, True):
                     for a1 in (False, True):
                         for a2 in (False, True):
                             outcomes[(order, o1, o2, a1, a2)] = scenario(order, {1: o1, 2: o2}, {1: a1, 2: a2})
+    try:
+        try:
+            all_scenarios()
+        except Unknown:
+            classed[0] = True
+            all_scenarios()
     except Unknown as e:
         raise AnalysisError(f"{fi.disp}: cannot evaluate the selection rule of Pattern.consume ({e})")
     r.scenarios = len(outcomes)
